@@ -6,7 +6,7 @@ import vlib
 from vlib import Infra
 
 NODE_INVS = ['OneProposalPerView', 'OneResponsePerView', 'OneCommit', 'OnePreCommit', 'CommitEvidence', 'ViewEvidence', 'ResponseEvidence',
-             'OneDecision', 'PreBlockOnce', 'PhaseOrder', 'AmevOff', 'TimerOK', 'Silent', 'HeldTxsBelong', 'PrimaryOK', 'PreCertificate']
+             'OneDecision', 'PreBlockOnce', 'PhaseOrder', 'AmevOff', 'TimerOK', 'Silent', 'HeldTxsBelong', 'PrimaryOK']
 # which model invariants speak for which property
 INV_PROP = {'OneProposalPerView': 'C03', 'OneResponsePerView': 'C03', 'OneCommit': 'C03', 'OnePreCommit': 'C03', 'CommitLock': 'C03',
             'CommitEvidence': 'C04', 'ViewEvidence': 'C04', 'ResponseEvidence': 'C04', 'OneDecision': 'C05', 'PreBlockOnce': 'C07',
@@ -14,7 +14,7 @@ INV_PROP = {'OneProposalPerView': 'C03', 'OneResponsePerView': 'C03', 'OneCommit
             'PreCertificate': 'C02', 'Certificate': 'C02'}
 
 def node_cfg(name, me=1, h=2, maxview=1, amev=False, watch=False, dyn=False, family=('core',), dev=True, weaken=(), invs=None, n=4,
-             emit=False, emitlen=0, props=('CommitLock',)):
+             emit=False, emitlen=0, props=('CommitLock', 'PreCertificate')):
     invs = NODE_INVS if invs is None else invs
     fam = '{' + ', '.join('"%s"' % f for f in family) + '}'
     wk = '{' + ', '.join('"%s"' % f for f in weaken) + '}'
@@ -30,20 +30,27 @@ def node_cfg(name, me=1, h=2, maxview=1, amev=False, watch=False, dyn=False, fam
     return dict(name=name, module='MC_Node', cfg=txt)
 
 NODE_FAMILIES = {
+    # small, run fresh by every check of a node-local property
     'quick': [
-        node_cfg('core-backup-then-primary', me=1),
-        node_cfg('core-primary-v0', me=2),
-        node_cfg('junk', me=1, family=('core', 'junk')),
-        node_cfg('amev', me=1, amev=True),
+        node_cfg('core-v0-backup', me=1, maxview=0),
+        node_cfg('core-v0-primary', me=2, maxview=0),
         node_cfg('watch', me=2, watch=True),
-        node_cfg('kf1-regression', me=1, family=('core', 'junk'), invs=['Certificate'], props=()),       # must FIND the KF-1 counterexample
-        node_cfg('kf1-fixed-model', me=1, family=('core', 'junk'), dev=False, invs=['Certificate'], props=()),  # and nothing else
+        node_cfg('amev-v0', me=1, amev=True, maxview=0, family=('core', 'junk1')),
+        node_cfg('kf1-regression', me=1, maxview=0, family=('core', 'junk1'), invs=['Certificate'], props=()),      # must FIND the KF-1 counterexample
+        node_cfg('kf1-fixed-model', me=1, maxview=0, family=('core', 'junk1'), dev=False, invs=['Certificate'], props=()),  # and nothing else
+    ],
+    # minutes each: computed once per specification version (cached by the hash of spec/*.tla), reported by every check
+    'cached': [
+        node_cfg('core-backup-then-primary', me=1),
+        node_cfg('junk1', me=1, family=('core', 'junk1')),
+        node_cfg('amev', me=1, amev=True),
     ],
     'thorough': [
+        node_cfg('core-primary-v0', me=2),
         node_cfg('equiv', me=1, family=('core', 'equiv')),
         node_cfg('recovery', me=1, family=('core', 'recovery')),
         node_cfg('tx-app', me=1, family=('core', 'tx', 'app')),
-        node_cfg('amev-junk', me=1, amev=True, family=('core', 'junk')),
+        node_cfg('amev-junk1', me=1, amev=True, family=('core', 'junk1')),
         node_cfg('amev-app', me=3, amev=True, family=('core', 'tx', 'app')),
         node_cfg('dyn', me=2, dyn=True, family=('core', 'tx')),
         node_cfg('dyn-backup', me=1, dyn=True, family=('core', 'tx')),
@@ -56,9 +63,11 @@ def run_tlc(item, wd, workers=4, cap=1800, simulate=None):
     sd = os.path.join(wd, 'mc-' + item['name']); os.makedirs(sd, exist_ok=True)
     for f in ('DbftNode.tla', item['module'] + '.tla'):
         shutil.copy(os.path.join(vlib.VERIF, 'spec', f), sd)
-    open(os.path.join(sd, 'mc.cfg'), 'w').write(item['cfg'])
+    cfg = item['cfg'] if simulate else item['cfg'].replace('Emit = FALSE', 'Emit = TRUE')   # carry the schedule (hidden by VIEW)
+    open(os.path.join(sd, 'mc.cfg'), 'w').write(cfg)
+    cex = os.path.join(sd, 'cex.json')
     cmd = ['java', '-Xmx8g', '-Xss256m', '-XX:+UseParallelGC', '-cp', vlib.JAVA_CP, 'tlc2.TLC', '-workers', str(workers),
-           '-metadir', os.path.join(sd, 'md'), '-config', 'mc.cfg']
+           '-metadir', os.path.join(sd, 'md'), '-config', 'mc.cfg'] + ([] if simulate else ['-dumpTrace', 'json', cex])
     if simulate:
         cmd += ['-simulate', 'num=%d' % simulate['num'], '-depth', str(simulate['depth']), '-seed', str(simulate['seed'])]
     cmd += [item['module'] + '.tla']
@@ -80,6 +89,11 @@ def run_tlc(item, wd, workers=4, cap=1800, simulate=None):
     if v:
         res['violated'] = v.group(1)
         res['trace_actions'] = len(re.findall(r'^State \d+:', out, re.M))
+        try:
+            d = json.load(open(cex))
+            res['schedule'] = d['counterexample']['state'][-1][1]['hist']['evs']
+        except Exception as e:
+            res['schedule'] = None
     elif 'Model checking completed. No error has been found.' in out or (simulate and 'The number of states generated' in out):
         res['completed'] = True
     elif not timed_out and not simulate:
@@ -89,20 +103,56 @@ def run_tlc(item, wd, workers=4, cap=1800, simulate=None):
     shutil.rmtree(sd, ignore_errors=True)
     return res
 
-def design(tier, wd, which=None):
-    items = list(NODE_FAMILIES['quick']) + (NODE_FAMILIES['thorough'] if tier != 'quick' else [])
-    if which:
-        items = [i for i in items if i['name'] in which]
-    with ThreadPoolExecutor(max_workers=max(1, vlib.NCPU // 4)) as ex:
-        res = list(ex.map(lambda it: run_tlc(it, wd), items))
+def spec_hash():
+    return vlib.tree_hash(os.path.join(vlib.VERIF, 'spec'), ('.tla',))
+
+def replay_schedule(evs, vh, wd, tag):
+    """Execute a model counterexample on the real node and validate the real trace."""
+    rd = os.path.join(wd, 'cex-' + tag); os.makedirs(rd, exist_ok=True)
+    bf = os.path.join(rd, 'behaviour.json')
+    open(bf, 'w').write(json.dumps(evs) + '\n')
+    tf = os.path.join(rd, 'script-%s.ndjson' % tag)
+    r = vlib.sh([vh, 'script', '-in', bf, '-runs', '0', '-out', tf], timeout=600)
+    if r.returncode != 0:
+        raise Infra('script driver failed: ' + r.stdout[-1500:])
+    viols, lines, states = vlib.tlc_trace(tf, wd)
+    return viols, bf, tf
+
+def design(tier, wd, vh=None, names=None):
+    """Run the design checks; model counterexamples are replayed on the real code (if vh is given)."""
+    cache_dir = os.path.join(vlib.VERIF, '.cache', 'design'); os.makedirs(cache_dir, exist_ok=True)
+    sh = spec_hash()
+    items = [('fresh', i) for i in NODE_FAMILIES['quick']] + [('cached', i) for i in NODE_FAMILIES['cached']]
+    if tier != 'quick':
+        items += [('cached', i) for i in NODE_FAMILIES['thorough']]
+    if names:
+        items = [(k, i) for k, i in items if i['name'] in names]
+    def one(ki):
+        kind, it = ki
+        cf = os.path.join(cache_dir, '%s-%s.json' % (sh, it['name']))
+        if kind == 'cached' and os.path.exists(cf):
+            r = json.load(open(cf)); r['from_cache'] = True
+            return r
+        r = run_tlc(it, wd, workers=4 if kind == 'fresh' else 8, cap=600 if kind == 'fresh' else 3000)
+        r.pop('stdout', None); r['from_cache'] = False; r['spec_hash'] = sh
+        r['invariants'] = [l for l in it['cfg'].splitlines() if l.startswith('INVARIANTS') or l.startswith('PROPERTY')]
+        if kind == 'cached' and (r['completed'] or r['violated']):
+            json.dump(r, open(cf, 'w'))
+        return r
+    with ThreadPoolExecutor(max_workers=4) as ex:
+        res = list(ex.map(one, items))
     for r in res:
-        r.pop('stdout', None)
+        if r.get('violated') and r.get('schedule') and vh:
+            viols, bf, tf = replay_schedule(r['schedule'], vh, wd, r['name'])
+            r['replayed_on_real_code'] = {'real_formula_failures': sorted({(v['prop'], v['formula'], v['tag']) for v in viols}),
+                                          'behaviour': bf, 'trace': tf}
+        r.pop('schedule', None)
     return res
 
 if __name__ == '__main__':
     wd = vlib.workdir('mc')
     try:
-        for r in design(sys.argv[1] if len(sys.argv) > 1 else 'quick', wd, sys.argv[2:] or None):
+        for r in design(sys.argv[1] if len(sys.argv) > 1 else 'quick', wd, None, sys.argv[2:] or None):
             print(json.dumps(r))
     finally:
         shutil.rmtree(wd, ignore_errors=True)
